@@ -52,7 +52,6 @@ Definition model_obs (c : case) : mobs :=
          m_jfinal := obs_of_result (do j <- js; run_joint d (c_eps c) (c_init c) j) |}
   end.
 
-Definition call_eqb (a b : call) : bool := String.eqb (fst a) (fst b) && list_eqb String.eqb (snd a) (snd b).
 Definition joint_eqb (a b : joint) : bool := list_eqb call_eqb a b.
 
 Definition agree (c : case) : bool :=
@@ -71,27 +70,6 @@ Definition spec_world (c : case) : option jworld :=
   | Some sd => Some {| jw_eps := c_eps c; jw_tt := spec_tt sd; jw_objs := c_objs c; jw_actions := sd_actions sd |}
   | None => None
   end.
-
-Fixpoint forall2b {A B} (p : A -> B -> bool) (a : list A) (b : list B) : bool :=
-  match a, b with
-  | [], [] => true
-  | x :: a', y :: b' => p x y && forall2b p a' b'
-  | _, _ => false
-  end.
-
-Definition slot_okb (agents : list name) (ag : name) (c : call) : bool :=
-  call_eqb c nop || (negb (is_nop c) && executed_by agents ag c).
-
-Definition count_call (c : call) (l : list call) : nat := List.length (filter (call_eqb c) l).
-
-Definition structure_okb (agents : list name) (plan : list call) (js : list joint) : bool :=
-  let out := List.concat (map members js) in
-  forallb (fun j => forall2b (slot_okb agents) agents j) js &&
-  forallb (fun j => forallb (fun ag => Nat.leb (List.length (by_agent agents ag (members j))) 1) agents) js &&
-  forallb (fun ag => list_eqb call_eqb (by_agent agents ag out) (by_agent agents ag plan)) agents &&
-  (Nat.eqb (List.length out) (List.length plan) &&
-   forallb (fun x => Nat.eqb (count_call x out) (count_call x plan)) plan) &&
-  forallb (fun j => match members j with [] => false | _ => true end) js.
 
 (* which kinds of interference do neighbouring actions of different agents show?  (classifies the recorded findings)
    'a' an atom added by one and deleted by the other; 'e' the effects are not compatible ('a', or something the EFFECTS
